@@ -329,6 +329,19 @@ func (g *gen) item() {
 			g.ioWrite(0x45, uint8(r.Intn(160)))
 		}
 	case o.MBCWrites && g.mbc && k < 32:
+		if r.Chance(1, 5) {
+			// a register of the cartridge's clock (if it has one) or a RAM bank is selected and
+			// A000 accessed back to back
+			g.emit(0x3e, uint8(r.Intn(0x10)), 0xea, 0x00, 0x40)
+			for n := 1 + r.Intn(3); n > 0; n-- {
+				if r.Bool() {
+					g.emit(0xfa, 0x00, 0xa0)
+				} else {
+					g.emit(0xea, 0x00, 0xa0)
+				}
+			}
+			return
+		}
 		a := uint16(r.Intn(0x8000))
 		g.emit(0x3e, r.U8(), 0xea, uint8(a), uint8(a>>8))
 	case o.OAMFocus && k < 50:
@@ -388,7 +401,7 @@ func (g *gen) item() {
 func Generate(r *rig.Rng, o Options) *Program {
 	cart := o.CartType
 	if cart < 0 || (cart == 0 && !o.MBCWrites && r.Chance(1, 2)) {
-		cart = r.PickInt([]int{0x00, 0x01, 0x03, 0x13, 0x1b, 0x05})
+		cart = r.PickInt([]int{0x00, 0x01, 0x03, 0x13, 0x1b, 0x05, 0x10})
 	}
 	romSize, ramSize := byte(1), byte(2)
 	if cart == 0 {
